@@ -711,7 +711,7 @@ class Text(JupyterMixin):
             count (int): Width of padding.
         """
         assert len(character) == 1, "Character must be a string of length 1"
-        if count:
+        if count > 0:
             pad_characters = character * count
             self.plain = f"{pad_characters}{self.plain}{pad_characters}"
             _Span = Span
@@ -728,7 +728,7 @@ class Text(JupyterMixin):
             character (str, optional): Character to pad with. Defaults to " ".
         """
         assert len(character) == 1, "Character must be a string of length 1"
-        if count:
+        if count > 0:
             self.plain = f"{character * count}{self.plain}"
             _Span = Span
             self._spans[:] = [
